@@ -26,14 +26,21 @@ theorem outermost_wins (p : PP) (h : p.override ≠ .no) :
     p.startSafeOverride.1 = p ∧ p.startUnsafeOverride.1 = p := by
   simp [PP.startSafeOverride, PP.startUnsafeOverride, h]
 
+/-- What a deferred `restore()` does to a result: on return the mode and override are put back;
+while a panic unwinds, the mode is. -/
+def Res.restored (r : Res) (m : Mode) (ov : Override) : Res :=
+  match r with
+  | .ok q => .ok (q.restore ⟨m, ov⟩)
+  | .panic b pl => .panic (b.setMode m) pl
+  | x => x
+
 /-- Under an active override, `Safe(v)` / `Unsafe(v)` print exactly like `v`
 (the restorer re-sets the mode it found, which is a no-op on the result's frame). -/
 theorem inner_wrapper_inert (env : Env) (n : Nat) (p : PP) (v : Val) (verb : Nat) (h : p.override ≠ .no) :
-    printArg env (n + 1) p (.safeW v) verb =
-      (printArg env n p v verb).bind (fun q => .ok (q.restore ⟨p.buf.mode, p.override⟩)) ∧
-    printArg env (n + 1) p (.unsafeW v) verb =
-      (printArg env n p v verb).bind (fun q => .ok (q.restore ⟨p.buf.mode, p.override⟩)) := by
-  simp [printArg, bracket, PP.startSafeOverride, PP.startUnsafeOverride, h]
+    printArg env (n + 1) p (.safeW v) verb = (printArg env n p v verb).restored p.buf.mode p.override ∧
+    printArg env (n + 1) p (.unsafeW v) verb = (printArg env n p v verb).restored p.buf.mode p.override := by
+  simp only [printArg, bracket, PP.startSafeOverride, PP.startUnsafeOverride, h, Res.restored, if_false]
+  constructor <;> (cases printArg env n p v verb <;> rfl)
 
 /-- Under `overrideUnsafe`, whether the value is a SafeFormatter or a SafeMessager
 is irrelevant: those dispatches are skipped (the error hook likewise, see C17). -/
@@ -48,7 +55,7 @@ it is written like any other unsafe data (and so escaped and enveloped). -/
 theorem unsafe_redactable_not_raw (p : PP) (content : List Byte) (h : p.override = .ovUnsafe) :
     bracket PP.startPreRedactable p (fun q => .ok (q.w content)) =
       .ok ((p.w content).restore ⟨p.buf.mode, p.override⟩) := by
-  simp [bracket, PP.startPreRedactable, h, Res.bind]
+  simp [bracket, PP.startPreRedactable, h]
 
 /-- `doPrint`/`doPrintf` leave the mode alone under `overrideUnsafe` (D3 fix). -/
 theorem doPrint_keeps_unsafe (env : Env) (n : Nat) (p : PP) (args : List Val) (h : p.override = .ovUnsafe) :
